@@ -27,5 +27,10 @@ if [ -n "$NEEDRACE" ]; then
   go build -race -overlay "$SCR/ov/overlay-plain.json" -o "$SCR/vcheck-race" ./cmd/vcheck > "$SCR/build-race.log" 2>&1 || { cat "$SCR/build-race.log" >&2; echo "race build failed" >&2; exit 2; }
   export VERIF_RACE_BIN="$SCR/vcheck-race"
 fi
+if [ "${1:-}" = "witnesses" ]; then
+  # replay every witness of the repaired defects under plain `go test` (no exploration)
+  go test -overlay "$SCR/ov/overlay.json" -vet=off -count=1 -run TestReplay ./harness
+  exit $?
+fi
 export VERIF_OVERLAY="$SCR/ov" VERIF_SCRATCH="$SCR"
 "$SCR/vcheck" "$@"
